@@ -49,7 +49,7 @@ theorem evexR_parsed (rule : Rule) (opcode reg vvvvv rm : BitVec 32) (imm : List
   generalize evexWord (xR opcode 0#32 reg vvvvv rm 0#32) opcode = w at *
   simp only [le32, List.cons_append, List.nil_append, hb0]
   have hmodb := modrmRR_mod (reg + (vvvvv <<< 7)) rm
-  rw [parse_evex_reg rule _ _ _ _ _ imm hs R.hpp8 (by rcases R.hmk with h | h <;> simp [h]) (by simp only [bit]; bv_decide)
+  rw [parse_evex_reg true rule _ _ _ _ _ imm (by simp) hs R.hpp8 (by rcases R.hmk with h | h <;> simp [h]) (by simp only [bit]; bv_decide)
         (by simp only [bit]; bv_decide) hmodb (by simp [R.himm, R.hrel]) R.hmoff]
   refine ⟨_, rfl, ?_, ?_, ?_, ?_, rfl⟩
   · refine ⟨Or.inr (Or.inr (Or.inl rfl)), rfl, rfl, rfl, hmodb, ?_, ?_, ?_, ?_, ?_, by simp, ?_⟩
@@ -103,7 +103,7 @@ theorem vex3R_parsed (rule : Rule) (opcode reg vvvvv rm : BitVec 32) (imm : List
   generalize vex3Word (vexPrep (xR opcode 0#32 reg vvvvv rm 0#32) opcode 0#32) opcode = w at *
   simp only [le32, List.cons_append, List.nil_append, hb0]
   have hmodb := modrmRR_mod (reg + (vvvvv <<< 7)) rm
-  rw [parse_vex3_reg rule _ _ _ _ imm hs R.hpp8 (by rcases R.hmk with h | h <;> simp [h]) hmodb (by simp [R.himm, R.hrel]) R.hmoff]
+  rw [parse_vex3_reg true rule _ _ _ _ imm (by simp) hs R.hpp8 (by rcases R.hmk with h | h <;> simp [h]) hmodb (by simp [R.himm, R.hrel]) R.hmoff]
   refine ⟨_, rfl, ?_, ?_, ?_, ?_, rfl⟩
   · refine ⟨Or.inr (Or.inl rfl), rfl, rfl, rfl, hmodb, ?_, ?_, ?_, ?_, ?_, ?_, by simp⟩
     · show (BitVec.truncate 8 (w >>> 24)).toNat = rule.opcode
@@ -151,7 +151,7 @@ theorem vex2R_parsed (rule : Rule) (opcode reg vvvvv rm : BitVec 32) (imm : List
   generalize (BitVec.truncate 8 (vex2Byte (vexPrep (xR opcode 0#32 reg vvvvv rm 0#32) opcode 0#32)) : BitVec 8) = b1 at *
   simp only [List.cons_append, List.nil_append]
   have hmodb := modrmRR_mod (reg + (vvvvv <<< 7)) rm
-  rw [parse_vex2_reg rule _ _ _ imm hs R.hpp8 (by rcases R.hmk with h | h <;> simp [h]) hmodb (by simp [R.himm, R.hrel]) R.hmoff]
+  rw [parse_vex2_reg true rule _ _ _ imm (by simp) hs R.hpp8 (by rcases R.hmk with h | h <;> simp [h]) hmodb (by simp [R.himm, R.hrel]) R.hmoff]
   refine ⟨_, rfl, ?_, ?_, ?_, ?_, rfl⟩
   · refine ⟨Or.inl rfl, rfl, rfl, rfl, hmodb, ?_, ?_, ?_, ?_, ?_, ?_, by simp⟩
     · show (opcode.truncate 8 : BitVec 8).toNat = rule.opcode
@@ -203,7 +203,7 @@ theorem emitVexEvexR_branches (c : Model.X86.Ctx) (opcode reg vvvvv rm : BitVec 
 /-- shape [reg, vvvv, rm], EVEX rule: whatever `EmitVexEvexR` emits when the EVEX branch is taken satisfies the monitor -/
 theorem vexR_rvm_formOk_evex (c : Model.X86.Ctx) (ctx : Spec.X86.Ctx) (rule : Rule) (opcode reg vvvvv rm : BitVec 32)
     (k0 k1 k2 : RegKind) (f0 f1 f2 : FormOp)
-    (hpe : c.preferEvex = false) (hk : c.extraId = 0#32) (hm64 : ctx.mode64 = true)
+    (hpe : c.preferEvex = false) (hk : c.extraId = 0#32) (hm64 : ctx.mode64 = true) (hmode : (rule.modes &&& 2 != 0) = true)
     (hr : reg < 32#32) (hv : vvvvv < 32#32) (hm : rm < 32#32) (hxop : opcode &&& 0x800#32 = 0#32)
     (hev : xR opcode 0#32 reg vvvvv rm 0#32 &&& 0x00D78150#32 ≠ 0#32)
     (hk0 : PlainKind k0) (hk1 : PlainKind k1) (hk2 : PlainKind k2)
@@ -217,12 +217,12 @@ theorem vexR_rvm_formOk_evex (c : Model.X86.Ctx) (ctx : Spec.X86.Ctx) (rule : Ru
   refine ⟨_, rfl, ?_⟩
   obtain ⟨p, hp, P, h0, h1, h2, -⟩ := evexR_parsed rule opcode reg vvvvv rm [] hr hv hm hxop R hs A
   simp only [emitImmByteOrDword] at *
-  exact vex_rvm_formOk ctx rule p _ _ k0 k1 k2 f0 f1 f2 _ _ _ hm64 hk0 hk1 hk2 R hf0 hf1 hf2 hal hp P h0 h1 h2
+  exact vex_rvm_formOk ctx rule p _ _ k0 k1 k2 f0 f1 f2 _ _ _ (by simpa [hm64] using hmode) hk0 hk1 hk2 R hf0 hf1 hf2 hal (by rw [hm64]; exact hp) P h0 h1 h2
 
 /-- shape [reg, vvvv, rm], VEX rule: the VEX3 or VEX2 bytes `EmitVexEvexR` emits when EVEX is not needed satisfy the monitor -/
 theorem vexR_rvm_formOk_vex (c : Model.X86.Ctx) (ctx : Spec.X86.Ctx) (rule : Rule) (opcode reg vvvvv rm : BitVec 32)
     (k0 k1 k2 : RegKind) (f0 f1 f2 : FormOp)
-    (hpe : c.preferEvex = false) (hk : c.extraId = 0#32) (hm64 : ctx.mode64 = true)
+    (hpe : c.preferEvex = false) (hk : c.extraId = 0#32) (hm64 : ctx.mode64 = true) (hmode : (rule.modes &&& 2 != 0) = true)
     (hr : reg < 16#32) (hv : vvvvv < 16#32) (hm : rm < 16#32) (hxop : opcode &&& 0x800#32 = 0#32) (hll : opcode &&& 0x40001000#32 = 0#32)
     (hmm : opcode &&& 0x1F00#32 ≠ 0#32)
     (hk0 : PlainKind k0) (hk1 : PlainKind k1) (hk2 : PlainKind k2)
@@ -242,7 +242,7 @@ theorem vexR_rvm_formOk_vex (c : Model.X86.Ctx) (ctx : Spec.X86.Ctx) (rule : Rul
     refine ⟨_, rfl, ?_⟩
     obtain ⟨p, hp, P, h0, h1, h2, -⟩ := vex3R_parsed rule opcode reg vvvvv rm [] hr hv hm hxop hll R hs A
     simp only [emitImmByteOrDword] at *
-    exact vex_rvm_formOk ctx rule p _ _ k0 k1 k2 f0 f1 f2 _ _ _ hm64 hk0 hk1 hk2 R hf0 hf1 hf2 hal hp P h0 h1 h2
+    exact vex_rvm_formOk ctx rule p _ _ k0 k1 k2 f0 f1 f2 _ _ _ (by simpa [hm64] using hmode) hk0 hk1 hk2 R hf0 hf1 hf2 hal (by rw [hm64]; exact hp) P h0 h1 h2
   · rw [if_neg h3]
     refine ⟨_, rfl, ?_⟩
     have h3' : vexPrep (xR opcode 0#32 reg vvvvv rm 0#32) opcode 0#32 &&& 0x8000803E#32 = 0#32 := by simpa using h3
@@ -251,12 +251,12 @@ theorem vexR_rvm_formOk_vex (c : Model.X86.Ctx) (ctx : Spec.X86.Ctx) (rule : Rul
       bv_decide
     obtain ⟨p, hp, P, h0, h1, h2, -⟩ := vex2R_parsed rule opcode reg vvvvv rm [] hr hv hm hll hmm1 h3' R hs A
     simp only [emitImmByteOrDword] at *
-    exact vex_rvm_formOk ctx rule p _ _ k0 k1 k2 f0 f1 f2 _ _ _ hm64 hk0 hk1 hk2 R hf0 hf1 hf2 hal hp P h0 h1 h2
+    exact vex_rvm_formOk ctx rule p _ _ k0 k1 k2 f0 f1 f2 _ _ _ (by simpa [hm64] using hmode) hk0 hk1 hk2 R hf0 hf1 hf2 hal (by rw [hm64]; exact hp) P h0 h1 h2
 
 /-- shape [reg, rm], EVEX rule: whatever `EmitVexEvexR` emits when the EVEX branch is taken satisfies the monitor -/
 theorem vexR_rm_formOk_evex (c : Model.X86.Ctx) (ctx : Spec.X86.Ctx) (rule : Rule) (opcode reg rm : BitVec 32)
     (k0 k2 : RegKind) (f0 f2 : FormOp)
-    (hpe : c.preferEvex = false) (hk : c.extraId = 0#32) (hm64 : ctx.mode64 = true)
+    (hpe : c.preferEvex = false) (hk : c.extraId = 0#32) (hm64 : ctx.mode64 = true) (hmode : (rule.modes &&& 2 != 0) = true)
     (hr : reg < 32#32) (hm : rm < 32#32) (hxop : opcode &&& 0x800#32 = 0#32)
     (hev : xR opcode 0#32 reg 0#32 rm 0#32 &&& 0x00D78150#32 ≠ 0#32)
     (hk0 : PlainKind k0) (hk2 : PlainKind k2)
@@ -270,12 +270,12 @@ theorem vexR_rm_formOk_evex (c : Model.X86.Ctx) (ctx : Spec.X86.Ctx) (rule : Rul
   refine ⟨_, rfl, ?_⟩
   obtain ⟨p, hp, P, h0, h1, h2, -⟩ := evexR_parsed rule opcode reg 0#32 rm [] hr (by decide) hm hxop R hs A
   simp only [emitImmByteOrDword] at *
-  exact vex_rm_formOk ctx rule p _ _ k0 k2 f0 f2 _ _ hm64 hk0 hk2 R hf0 hf2 hal hp P h0 h1 h2
+  exact vex_rm_formOk ctx rule p _ _ k0 k2 f0 f2 _ _ (by simpa [hm64] using hmode) hk0 hk2 R hf0 hf2 hal (by rw [hm64]; exact hp) P h0 h1 h2
 
 /-- shape [reg, rm], VEX rule: the VEX3 or VEX2 bytes `EmitVexEvexR` emits when EVEX is not needed satisfy the monitor -/
 theorem vexR_rm_formOk_vex (c : Model.X86.Ctx) (ctx : Spec.X86.Ctx) (rule : Rule) (opcode reg rm : BitVec 32)
     (k0 k2 : RegKind) (f0 f2 : FormOp)
-    (hpe : c.preferEvex = false) (hk : c.extraId = 0#32) (hm64 : ctx.mode64 = true)
+    (hpe : c.preferEvex = false) (hk : c.extraId = 0#32) (hm64 : ctx.mode64 = true) (hmode : (rule.modes &&& 2 != 0) = true)
     (hr : reg < 16#32) (hm : rm < 16#32) (hxop : opcode &&& 0x800#32 = 0#32) (hll : opcode &&& 0x40001000#32 = 0#32)
     (hmm : opcode &&& 0x1F00#32 ≠ 0#32)
     (hk0 : PlainKind k0) (hk2 : PlainKind k2)
@@ -295,7 +295,7 @@ theorem vexR_rm_formOk_vex (c : Model.X86.Ctx) (ctx : Spec.X86.Ctx) (rule : Rule
     refine ⟨_, rfl, ?_⟩
     obtain ⟨p, hp, P, h0, h1, h2, -⟩ := vex3R_parsed rule opcode reg 0#32 rm [] hr (by decide) hm hxop hll R hs A
     simp only [emitImmByteOrDword] at *
-    exact vex_rm_formOk ctx rule p _ _ k0 k2 f0 f2 _ _ hm64 hk0 hk2 R hf0 hf2 hal hp P h0 h1 h2
+    exact vex_rm_formOk ctx rule p _ _ k0 k2 f0 f2 _ _ (by simpa [hm64] using hmode) hk0 hk2 R hf0 hf2 hal (by rw [hm64]; exact hp) P h0 h1 h2
   · rw [if_neg h3]
     refine ⟨_, rfl, ?_⟩
     have h3' : vexPrep (xR opcode 0#32 reg 0#32 rm 0#32) opcode 0#32 &&& 0x8000803E#32 = 0#32 := by simpa using h3
@@ -304,12 +304,12 @@ theorem vexR_rm_formOk_vex (c : Model.X86.Ctx) (ctx : Spec.X86.Ctx) (rule : Rule
       bv_decide
     obtain ⟨p, hp, P, h0, h1, h2, -⟩ := vex2R_parsed rule opcode reg 0#32 rm [] hr (by decide) hm hll hmm1 h3' R hs A
     simp only [emitImmByteOrDword] at *
-    exact vex_rm_formOk ctx rule p _ _ k0 k2 f0 f2 _ _ hm64 hk0 hk2 R hf0 hf2 hal hp P h0 h1 h2
+    exact vex_rm_formOk ctx rule p _ _ k0 k2 f0 f2 _ _ (by simpa [hm64] using hmode) hk0 hk2 R hf0 hf2 hal (by rw [hm64]; exact hp) P h0 h1 h2
 
 /-- shape [reg, vvvv, rm, imm8], EVEX rule: whatever `EmitVexEvexR` emits when the EVEX branch is taken satisfies the monitor -/
 theorem vexR_rvmi_formOk_evex (c : Model.X86.Ctx) (ctx : Spec.X86.Ctx) (rule : Rule) (opcode reg vvvvv rm : BitVec 32)
     (k0 k1 k2 : RegKind) (f0 f1 f2 : FormOp)
-    (hpe : c.preferEvex = false) (hk : c.extraId = 0#32) (hm64 : ctx.mode64 = true)
+    (hpe : c.preferEvex = false) (hk : c.extraId = 0#32) (hm64 : ctx.mode64 = true) (hmode : (rule.modes &&& 2 != 0) = true)
     (hr : reg < 32#32) (hv : vvvvv < 32#32) (hm : rm < 32#32) (hxop : opcode &&& 0x800#32 = 0#32)
     (hev : xR opcode 0#32 reg vvvvv rm 0#32 &&& 0x00D78150#32 ≠ 0#32)
     (hk0 : PlainKind k0) (hk1 : PlainKind k1) (hk2 : PlainKind k2)
@@ -323,12 +323,12 @@ theorem vexR_rvmi_formOk_evex (c : Model.X86.Ctx) (ctx : Spec.X86.Ctx) (rule : R
   refine ⟨_, rfl, ?_⟩
   obtain ⟨p, hp, P, h0, h1, h2, hi⟩ := evexR_parsed rule opcode reg vvvvv rm [imm.truncate 8] hr hv hm hxop R hs A
   simp only [emitImmByteOrDword, Nat.one_ne_zero, beq_self_eq_true, ↓reduceIte, show ((1:Nat) == 0) = false from rfl, Bool.false_eq_true] at *
-  exact vex_rvmi_formOk ctx rule p _ _ k0 k1 k2 f0 f1 f2 _ _ _ hm64 hk0 hk1 hk2 R f3 imm hf3 hib (by simp [hi]) hf0 hf1 hf2 hal hp P h0 h1 h2
+  exact vex_rvmi_formOk ctx rule p _ _ k0 k1 k2 f0 f1 f2 _ _ _ (by simpa [hm64] using hmode) hk0 hk1 hk2 R f3 imm hf3 hib (by simp [hi]) hf0 hf1 hf2 hal (by rw [hm64]; exact hp) P h0 h1 h2
 
 /-- shape [reg, vvvv, rm, imm8], VEX rule: the VEX3 or VEX2 bytes `EmitVexEvexR` emits when EVEX is not needed satisfy the monitor -/
 theorem vexR_rvmi_formOk_vex (c : Model.X86.Ctx) (ctx : Spec.X86.Ctx) (rule : Rule) (opcode reg vvvvv rm : BitVec 32)
     (k0 k1 k2 : RegKind) (f0 f1 f2 : FormOp)
-    (hpe : c.preferEvex = false) (hk : c.extraId = 0#32) (hm64 : ctx.mode64 = true)
+    (hpe : c.preferEvex = false) (hk : c.extraId = 0#32) (hm64 : ctx.mode64 = true) (hmode : (rule.modes &&& 2 != 0) = true)
     (hr : reg < 16#32) (hv : vvvvv < 16#32) (hm : rm < 16#32) (hxop : opcode &&& 0x800#32 = 0#32) (hll : opcode &&& 0x40001000#32 = 0#32)
     (hmm : opcode &&& 0x1F00#32 ≠ 0#32)
     (hk0 : PlainKind k0) (hk1 : PlainKind k1) (hk2 : PlainKind k2)
@@ -348,7 +348,7 @@ theorem vexR_rvmi_formOk_vex (c : Model.X86.Ctx) (ctx : Spec.X86.Ctx) (rule : Ru
     refine ⟨_, rfl, ?_⟩
     obtain ⟨p, hp, P, h0, h1, h2, hi⟩ := vex3R_parsed rule opcode reg vvvvv rm [imm.truncate 8] hr hv hm hxop hll R hs A
     simp only [emitImmByteOrDword, Nat.one_ne_zero, beq_self_eq_true, ↓reduceIte, show ((1:Nat) == 0) = false from rfl, Bool.false_eq_true] at *
-    exact vex_rvmi_formOk ctx rule p _ _ k0 k1 k2 f0 f1 f2 _ _ _ hm64 hk0 hk1 hk2 R f3 imm hf3 hib (by simp [hi]) hf0 hf1 hf2 hal hp P h0 h1 h2
+    exact vex_rvmi_formOk ctx rule p _ _ k0 k1 k2 f0 f1 f2 _ _ _ (by simpa [hm64] using hmode) hk0 hk1 hk2 R f3 imm hf3 hib (by simp [hi]) hf0 hf1 hf2 hal (by rw [hm64]; exact hp) P h0 h1 h2
   · rw [if_neg h3]
     refine ⟨_, rfl, ?_⟩
     have h3' : vexPrep (xR opcode 0#32 reg vvvvv rm 0#32) opcode 0#32 &&& 0x8000803E#32 = 0#32 := by simpa using h3
@@ -357,12 +357,12 @@ theorem vexR_rvmi_formOk_vex (c : Model.X86.Ctx) (ctx : Spec.X86.Ctx) (rule : Ru
       bv_decide
     obtain ⟨p, hp, P, h0, h1, h2, hi⟩ := vex2R_parsed rule opcode reg vvvvv rm [imm.truncate 8] hr hv hm hll hmm1 h3' R hs A
     simp only [emitImmByteOrDword, Nat.one_ne_zero, beq_self_eq_true, ↓reduceIte, show ((1:Nat) == 0) = false from rfl, Bool.false_eq_true] at *
-    exact vex_rvmi_formOk ctx rule p _ _ k0 k1 k2 f0 f1 f2 _ _ _ hm64 hk0 hk1 hk2 R f3 imm hf3 hib (by simp [hi]) hf0 hf1 hf2 hal hp P h0 h1 h2
+    exact vex_rvmi_formOk ctx rule p _ _ k0 k1 k2 f0 f1 f2 _ _ _ (by simpa [hm64] using hmode) hk0 hk1 hk2 R f3 imm hf3 hib (by simp [hi]) hf0 hf1 hf2 hal (by rw [hm64]; exact hp) P h0 h1 h2
 
 /-- shape [reg, rm, imm8], EVEX rule: whatever `EmitVexEvexR` emits when the EVEX branch is taken satisfies the monitor -/
 theorem vexR_rmi_formOk_evex (c : Model.X86.Ctx) (ctx : Spec.X86.Ctx) (rule : Rule) (opcode reg rm : BitVec 32)
     (k0 k2 : RegKind) (f0 f2 : FormOp)
-    (hpe : c.preferEvex = false) (hk : c.extraId = 0#32) (hm64 : ctx.mode64 = true)
+    (hpe : c.preferEvex = false) (hk : c.extraId = 0#32) (hm64 : ctx.mode64 = true) (hmode : (rule.modes &&& 2 != 0) = true)
     (hr : reg < 32#32) (hm : rm < 32#32) (hxop : opcode &&& 0x800#32 = 0#32)
     (hev : xR opcode 0#32 reg 0#32 rm 0#32 &&& 0x00D78150#32 ≠ 0#32)
     (hk0 : PlainKind k0) (hk2 : PlainKind k2)
@@ -376,12 +376,12 @@ theorem vexR_rmi_formOk_evex (c : Model.X86.Ctx) (ctx : Spec.X86.Ctx) (rule : Ru
   refine ⟨_, rfl, ?_⟩
   obtain ⟨p, hp, P, h0, h1, h2, hi⟩ := evexR_parsed rule opcode reg 0#32 rm [imm.truncate 8] hr (by decide) hm hxop R hs A
   simp only [emitImmByteOrDword, Nat.one_ne_zero, beq_self_eq_true, ↓reduceIte, show ((1:Nat) == 0) = false from rfl, Bool.false_eq_true] at *
-  exact vex_rmi_formOk ctx rule p _ _ k0 k2 f0 f2 _ _ hm64 hk0 hk2 R f3 imm hf3 hib (by simp [hi]) hf0 hf2 hal hp P h0 h1 h2
+  exact vex_rmi_formOk ctx rule p _ _ k0 k2 f0 f2 _ _ (by simpa [hm64] using hmode) hk0 hk2 R f3 imm hf3 hib (by simp [hi]) hf0 hf2 hal (by rw [hm64]; exact hp) P h0 h1 h2
 
 /-- shape [reg, rm, imm8], VEX rule: the VEX3 or VEX2 bytes `EmitVexEvexR` emits when EVEX is not needed satisfy the monitor -/
 theorem vexR_rmi_formOk_vex (c : Model.X86.Ctx) (ctx : Spec.X86.Ctx) (rule : Rule) (opcode reg rm : BitVec 32)
     (k0 k2 : RegKind) (f0 f2 : FormOp)
-    (hpe : c.preferEvex = false) (hk : c.extraId = 0#32) (hm64 : ctx.mode64 = true)
+    (hpe : c.preferEvex = false) (hk : c.extraId = 0#32) (hm64 : ctx.mode64 = true) (hmode : (rule.modes &&& 2 != 0) = true)
     (hr : reg < 16#32) (hm : rm < 16#32) (hxop : opcode &&& 0x800#32 = 0#32) (hll : opcode &&& 0x40001000#32 = 0#32)
     (hmm : opcode &&& 0x1F00#32 ≠ 0#32)
     (hk0 : PlainKind k0) (hk2 : PlainKind k2)
@@ -401,7 +401,7 @@ theorem vexR_rmi_formOk_vex (c : Model.X86.Ctx) (ctx : Spec.X86.Ctx) (rule : Rul
     refine ⟨_, rfl, ?_⟩
     obtain ⟨p, hp, P, h0, h1, h2, hi⟩ := vex3R_parsed rule opcode reg 0#32 rm [imm.truncate 8] hr (by decide) hm hxop hll R hs A
     simp only [emitImmByteOrDword, Nat.one_ne_zero, beq_self_eq_true, ↓reduceIte, show ((1:Nat) == 0) = false from rfl, Bool.false_eq_true] at *
-    exact vex_rmi_formOk ctx rule p _ _ k0 k2 f0 f2 _ _ hm64 hk0 hk2 R f3 imm hf3 hib (by simp [hi]) hf0 hf2 hal hp P h0 h1 h2
+    exact vex_rmi_formOk ctx rule p _ _ k0 k2 f0 f2 _ _ (by simpa [hm64] using hmode) hk0 hk2 R f3 imm hf3 hib (by simp [hi]) hf0 hf2 hal (by rw [hm64]; exact hp) P h0 h1 h2
   · rw [if_neg h3]
     refine ⟨_, rfl, ?_⟩
     have h3' : vexPrep (xR opcode 0#32 reg 0#32 rm 0#32) opcode 0#32 &&& 0x8000803E#32 = 0#32 := by simpa using h3
@@ -410,7 +410,7 @@ theorem vexR_rmi_formOk_vex (c : Model.X86.Ctx) (ctx : Spec.X86.Ctx) (rule : Rul
       bv_decide
     obtain ⟨p, hp, P, h0, h1, h2, hi⟩ := vex2R_parsed rule opcode reg 0#32 rm [imm.truncate 8] hr (by decide) hm hll hmm1 h3' R hs A
     simp only [emitImmByteOrDword, Nat.one_ne_zero, beq_self_eq_true, ↓reduceIte, show ((1:Nat) == 0) = false from rfl, Bool.false_eq_true] at *
-    exact vex_rmi_formOk ctx rule p _ _ k0 k2 f0 f2 _ _ hm64 hk0 hk2 R f3 imm hf3 hib (by simp [hi]) hf0 hf2 hal hp P h0 h1 h2
+    exact vex_rmi_formOk ctx rule p _ _ k0 k2 f0 f2 _ _ (by simpa [hm64] using hmode) hk0 hk2 R f3 imm hf3 hib (by simp [hi]) hf0 hf2 hal (by rw [hm64]; exact hp) P h0 h1 h2
 
 
 theorem emitPP_eq (opcode : BitVec 32) (h : opcode &&& 0x00800000#32 = 0#32) :
@@ -497,16 +497,16 @@ theorem x86R_parsed (rule : Rule) (opcode opReg rbReg : BitVec 32) (imm : BitVec
     simp only [isLegacyPrefix, Bool.or_eq_true, beq_iff_eq, Bool.false_and, Bool.or_false] at hh
     bv_decide
   have hoH : rule.map = 0 → isLegacyPrefix (opcode.truncate 8) false = false ∧
-      (rexOf opcode opReg rbReg = none → (opcode.truncate 8 : BitVec 8).toNat / 16 ≠ 4) := by
+      (true = true → rexOf opcode opReg rbReg = none → (opcode.truncate 8 : BitVec 8).toNat / 16 ≠ 4) := by
     intro hm0
     have hm0' : (opcode >>> 8) &&& 3#32 = 0#32 := by
       apply BitVec.eq_of_toNat_eq; rw [← hmap, hm0]; rfl
     obtain ⟨s1, s2⟩ := hsafe hm0'
-    refine ⟨s1, fun _ h => s2 ?_⟩
+    refine ⟨s1, fun _ _ h => s2 ?_⟩
     apply BitVec.eq_of_toNat_eq
     simpa [BitVec.toNat_ushiftRight, Nat.shiftRight_eq_div_pow] using h
-  have hparse := parse_legacy_reg rule _ (rexOf opcode opReg rbReg) (opcode.truncate 8) (modrmRR opReg rbReg) (emitImmediate imm n)
-    hpplt R.hs R.hpp8 hmaplt (by rcases R.hmk with h | h <;> simp [h]) hrexH hoH hmodb hlen R.hmoff
+  have hparse := parse_legacy_reg true rule _ (rexOf opcode opReg rbReg) (opcode.truncate 8) (modrmRR opReg rbReg) (emitImmediate imm n)
+    (by simp) hpplt R.hs R.hpp8 hmaplt (by rcases R.hmk with h | h <;> simp [h]) hrexH hoH hmodb hlen R.hmoff
   rw [hmap] at hparse
   refine ⟨_, _, emitX86R_bytes opcode opReg rbReg imm n hopc ho hb, hparse, ⟨rfl, rfl, rfl, hmodb, ?_, ?_, rfl⟩, ?_, ?_, rfl⟩
   · show (opcode.truncate 8 : BitVec 8).toNat = rule.opcode
@@ -548,7 +548,7 @@ theorem x86R_parsed (rule : Rule) (opcode opReg rbReg : BitVec 32) (imm : BitVec
 
 /-- legacy shape [reg-field operand, rm-field operand] in either operand order: the bytes of `EmitX86R` satisfy the monitor -/
 theorem legR_2reg_formOk (ctx : Spec.X86.Ctx) (rule : Rule) (opcode opReg rbReg : BitVec 32) (ka kb : RegKind) (fa fb : FormOp)
-    (hm64 : ctx.mode64 = true) (hopc : opcode &&& 0xF7801C00#32 = 0#32) (ho : opReg < 16#32) (hb : rbReg < 16#32)
+    (hm64 : ctx.mode64 = true) (hmode : (rule.modes &&& 2 != 0) = true) (hopc : opcode &&& 0xF7801C00#32 = 0#32) (ho : opReg < 16#32) (hb : rbReg < 16#32)
     (hka : PlainKind ka) (hkb : PlainKind kb)
     (R : LegRule rule 0 ((opcode >>> 21) &&& 3#32).toNat) (A : LegAgree rule opcode)
     (regFirst : Bool)
@@ -561,14 +561,14 @@ theorem legR_2reg_formOk (ctx : Spec.X86.Ctx) (rule : Rule) (opcode opReg rbReg 
   cases regFirst with
   | true =>
     simp only [↓reduceIte] at hroles ⊢
-    exact leg_2reg_formOk ctx rule p _ bytes _ ka kb fa fb _ _ hm64 hka hkb R (Or.inl ⟨hroles.1, hroles.2, h0, h1⟩) (hal _ _) hp P
+    exact leg_2reg_formOk ctx rule p _ bytes _ ka kb fa fb _ _ (by simpa [hm64] using hmode) hka hkb R (Or.inl ⟨hroles.1, hroles.2, h0, h1⟩) (hal _ _) (by rw [hm64]; exact hp) P
   | false =>
     simp only [Bool.false_eq_true, ↓reduceIte] at hroles ⊢
-    exact leg_2reg_formOk ctx rule p _ bytes _ ka kb fa fb _ _ hm64 hka hkb R (Or.inr ⟨hroles.1, hroles.2, h1, h0⟩) (hal _ _) hp P
+    exact leg_2reg_formOk ctx rule p _ bytes _ ka kb fa fb _ _ (by simpa [hm64] using hmode) hka hkb R (Or.inr ⟨hroles.1, hroles.2, h1, h0⟩) (hal _ _) (by rw [hm64]; exact hp) P
 
 /-- legacy shape [reg, rm, imm8] -/
 theorem legR_2reg_imm_formOk (ctx : Spec.X86.Ctx) (rule : Rule) (opcode opReg rbReg : BitVec 32) (ka kb : RegKind) (fa fb f3 : FormOp) (imm : BitVec 64)
-    (hm64 : ctx.mode64 = true) (hopc : opcode &&& 0xF7801C00#32 = 0#32) (ho : opReg < 16#32) (hb : rbReg < 16#32)
+    (hm64 : ctx.mode64 = true) (hmode : (rule.modes &&& 2 != 0) = true) (hopc : opcode &&& 0xF7801C00#32 = 0#32) (ho : opReg < 16#32) (hb : rbReg < 16#32)
     (hka : PlainKind ka) (hkb : PlainKind kb)
     (R : LegRule rule 1 ((opcode >>> 21) &&& 3#32).toNat) (A : LegAgree rule opcode)
     (hra : fa.role = .reg) (hrb : fb.role = .rm) (hf3 : f3.role = .imm) (hib : immBitsOf f3 = 8) (hsg : (immSignOf f3 == 1) = false)
@@ -578,7 +578,7 @@ theorem legR_2reg_imm_formOk (ctx : Spec.X86.Ctx) (rule : Rule) (opcode opReg rb
       formOk ctx rule [.reg ka opReg.toNat, .reg kb rbReg.toNat, .imm imm] {} bytes = true := by
   obtain ⟨bytes, p, hb', hp, P, h0, h1, hi⟩ := x86R_parsed rule opcode opReg rbReg imm 1 hopc ho hb R A
   refine ⟨bytes, hb', ?_⟩
-  exact leg_2reg_imm_formOk ctx rule p _ bytes _ ka kb fa fb _ _ hm64 hka hkb R f3 imm hf3 hib hsg (by simp [hi, emitImmediate])
-    (Or.inl ⟨hra, hrb, h0, h1⟩) (hal _ _) hp P
+  exact leg_2reg_imm_formOk ctx rule p _ bytes _ ka kb fa fb _ _ (by simpa [hm64] using hmode) hka hkb R f3 imm hf3 hib hsg (by simp [hi, emitImmediate])
+    (Or.inl ⟨hra, hrb, h0, h1⟩) (hal _ _) (by rw [hm64]; exact hp) P
 
 end AsmjitVerif.Props.C01
